@@ -117,7 +117,7 @@ class NoSuchModuleError(SECoPError):
     name = 'NoSuchModule'
 
 
-class NotImplementedSECoPError(NotImplementedError, SECoPError):
+class NotImplementedSECoPError(SECoPError, NotImplementedError):
     """not (yet) implemented
 
     A (not yet) implemented action or combination of action and specifier
@@ -242,7 +242,7 @@ class HardwareError(SECoPError):
     name = 'HardwareError'
 
 
-class TimeoutSECoPError(TimeoutError, SECoPError):
+class TimeoutSECoPError(SECoPError, TimeoutError):
     """Some initiated action took longer than the maximum allowed time (retryable)"""
     name = 'TimeoutError'
 
